@@ -3,7 +3,9 @@
    rich.color.Color did on every point of the slice; TLC evaluates the property part of Color.tla
    on every point and prints one verdict per record naming the first failing point and clause.
 
-   JSON batch (TRACE_FILE):  { std, win, eight : palettes of the tree under test,  recs : [record] }
+   JSON batch (TRACE_FILE):  { std, win, eight : palettes of the tree under test,
+                               themes : the terminal themes given to get_truecolor (theme 1 = None = the default theme),
+                               recs : [record] }
    record:
      row   <<R, G>>  - the slice is the 256 colours rgb(R, G, 0..255)          (pts = <<>>), or
      pts   <<colour, ...>> - an explicit list of source colours                (row = <<>>)
@@ -19,6 +21,15 @@
            RefDowngradeSet (implementation-shaped part, DRIFT only; a coverage choice of the driver)
      sf,sb 5 columns each: parameter p of get_ansi_codes(foreground=True / False) of the SOURCE
            colour, Absent (-1) beyond the end of the list
+     props observations of the read-only accessors for some points (implementation-shaped part, DRIFT only):
+             i     the point (0-based)
+             exc   "" or the class name of an exception raised by one of the accessors
+             sys, isdef, sysdef   Color.system (projected name), is_default, is_system_defined (1 / 0)
+             tc    get_truecolor(theme, foreground) for theme 1..Len(themes) x (True, False), as <<r,g,b>>
+   In which order the four targets were asked for a point, in which of its call forms get_ansi_codes was
+   called, and which earlier calls the process had already made (other points, repeated points, colours that
+   are themselves results of earlier conversions) is the driver's choice of history; the verdict of a point
+   does not depend on it.
    A column is stored losslessly as delta-runs <<o, len, start, step>>: points o .. o+len-1 have the
    values start, start+step, ...  (TLC checks that the runs tile 0..n-1 exactly).  Dictionary and
    runs are a lossless re-arrangement of the per-point observations; nothing is decided in Python. *)
@@ -29,6 +40,7 @@ JStd   == Data.std
 JWin   == Data.win
 JEight == Data.eight
 Recs   == Data.recs
+Themes == Data.themes
 
 VARIABLES tid, verdict
 vars == <<tid, verdict>>
@@ -62,6 +74,9 @@ Shape(rec) ==
     /\ \A k \in 1..4 : RunsTile(rec.cols[SysOrder[k]], rec.n) /\ IndexRuns(rec.cols[SysOrder[k]], Len(rec.tab))
     /\ Len(rec.sf) = 5 /\ Len(rec.sb) = 5
     /\ \A p \in 1..5 : RunsTile(rec.sf[p], rec.n) /\ RunsTile(rec.sb[p], rec.n)
+    /\ \A k \in 1..Len(rec.props) : rec.props[k].i \in 0..(rec.n - 1)
+\* every source is a colour (a malformed Color tuple cannot be judged: its conversions are not defined)
+SourcesOK(rec) == Len(rec.row) = 2 \/ \A i \in 0..(rec.n - 1) : WellFormed(Pt(rec, i))
 
 \* ---- one point, one target ----------------------------------------------------------------
 First(c, e)  == IF e.same THEN c ELSE e.c                  \* result of downgrade(c)
@@ -93,6 +108,25 @@ ColourStr(c) ==
     ELSE IF c.kind = "default" THEN "default"
     ELSE c.kind \o "(" \o ToString(c.n) \o ")"
 
+\* the point inside the record: "rgb(1,2,3)#17"
+PointStr(rec, i) == ColourStr(Pt(rec, i)) \o "#" \o ToString(i)
+
+\* ---- the read-only accessors (DRIFT only) ---------------------------------------------------
+PropsClause(rec, q) ==
+    LET c == Pt(rec, q.i)
+    IN IF q.exc # "" THEN "raised-" \o q.exc
+       ELSE IF q.sys # RefSystem(c) THEN "system"
+       ELSE IF q.isdef # (IF RefIsDefault(c) THEN 1 ELSE 0) THEN "is_default"
+       ELSE IF q.sysdef # (IF RefIsSystemDefined(c) THEN 1 ELSE 0) THEN "is_system_defined"
+       ELSE IF Len(q.tc) # 2 * Len(Themes) THEN "truecolor-count"
+       ELSE LET bad == {k \in 1..Len(q.tc) : q.tc[k] # RefTruecolor(c, Themes[(k + 1) \div 2], k % 2 = 1)}
+            IN IF bad = {} THEN "ok"
+               ELSE "truecolor-theme" \o ToString((MinOf(bad) + 1) \div 2) \o (IF MinOf(bad) % 2 = 1 THEN "-fg" ELSE "-bg")
+PropsAgree(rec) == \A k \in 1..Len(rec.props) : PropsClause(rec, rec.props[k]) = "ok"
+DescribeProps(rec) ==
+    LET k0 == MinOf({k \in 1..Len(rec.props) : PropsClause(rec, rec.props[k]) # "ok"})
+    IN "drift:" \o PointStr(rec, rec.props[k0].i) \o ">props:" \o PropsClause(rec, rec.props[k0])
+
 \* ---- a whole slice ------------------------------------------------------------------------
 TargetOK(rec, sys) ==
     ColumnAll(rec.cols[sys], LAMBDA i, v : PointOK(Pt(rec, i), sys, rec.tab[v]))
@@ -107,19 +141,21 @@ RefAgrees(rec, sys) ==
 DescribeTarget(rec, sys) ==
     LET clause(i) == PointClause(Pt(rec, i), sys, rec.tab[ValueAt(rec.cols[sys], i)])
         i0 == MinOf({i \in 0..(rec.n - 1) : clause(i) # "ok"})
-    IN ColourStr(Pt(rec, i0)) \o ">" \o sys \o ":" \o clause(i0)
+    IN PointStr(rec, i0) \o ">" \o sys \o ":" \o clause(i0)
 DescribeSource(rec, fg) ==
     LET cols == IF fg THEN rec.sf ELSE rec.sb
         i0 == MinOf({i \in 0..(rec.n - 1) : \E p \in 1..5 : ValueAt(cols[p], i) # SgrCodeAt(Pt(rec, i), fg, p)})
-    IN ColourStr(Pt(rec, i0)) \o ">-:" \o (IF fg THEN "sgr-fg-of-source" ELSE "sgr-bg-of-source")
+    IN PointStr(rec, i0) \o ">-:" \o (IF fg THEN "sgr-fg-of-source" ELSE "sgr-bg-of-source")
 DescribeDrift(rec, sys) ==
     LET i0 == MinOf({i \in 0..(rec.n - 1) :
                        ~RefAccepts(Pt(rec, i), sys, First(Pt(rec, i), rec.tab[ValueAt(rec.cols[sys], i)]))})
-    IN "drift:" \o ColourStr(Pt(rec, i0)) \o ">" \o sys \o "="
+    IN "drift:" \o PointStr(rec, i0) \o ">" \o sys \o "="
          \o ColourStr(First(Pt(rec, i0), rec.tab[ValueAt(rec.cols[sys], i0)]))
 
 Judge(rec) ==
     IF ~Shape(rec) THEN "malformed-record"
+    ELSE IF ~SourcesOK(rec) THEN
+         PointStr(rec, MinOf({i \in 0..(rec.n - 1) : ~WellFormed(Pt(rec, i))})) \o ">-:malformed-source"
     ELSE LET badT == {k \in 1..4 : ~(TargetOK(rec, SysOrder[k]))}
          IN IF badT # {} THEN DescribeTarget(rec, SysOrder[MinOf(badT)])
             ELSE IF ~TabOK(rec) THEN
@@ -130,7 +166,8 @@ Judge(rec) ==
             ELSE IF ~SourceCodesOK(rec, TRUE) THEN DescribeSource(rec, TRUE)
             ELSE IF ~SourceCodesOK(rec, FALSE) THEN DescribeSource(rec, FALSE)
             ELSE LET badD == {k \in 1..4 : SysOrder[k] \in Range(rec.ref) /\ ~RefAgrees(rec, SysOrder[k])}
-                 IN IF badD # {} THEN DescribeDrift(rec, SysOrder[MinOf(badD)]) ELSE "ok"
+                 IN IF badD # {} THEN DescribeDrift(rec, SysOrder[MinOf(badD)])
+                    ELSE IF ~PropsAgree(rec) THEN DescribeProps(rec) ELSE "ok"
 
 Init == tid \in 1..Len(Recs) /\ verdict = Judge(Recs[tid])
 Next == UNCHANGED vars
